@@ -48,7 +48,8 @@ ASSUMPTIONS = {
                    'them on the real-number instance: split_triangle unconditionally; flip_diagonal / split_edge / restore_delaunay / add_point and histories of '
                    'these from any mesh whose links are geometrically exact (LNKG: an invariant of the steps under the separation hypothesis SEP, proved for every '
                    'number instance; NOT proved of from_polygon\'s result), each inserted point separated from the current vertices and, for an edge split, '
-                   'exactly on the edge (the crate locates points with a 100-eps tolerance); refine is not covered; nothing geometric is proved of the float instance'],
+                   'exactly on the edge (the crate locates points with a 100-eps tolerance); refine and mesh_polygon are covered through the trace of elementary steps '
+                   '(Properties/C08_refine.v) under the same side conditions at every step of the trace; nothing geometric is proved of the float instance'],
  'C09': _COMMON + ['wall-clock time and stack depth are observed by the harness, not modelled; success for well-conditioned polygons is validated on the '
                    'generated stream, not proved (needs the two-ears theorem)'],
  'C18': _COMMON + ['the theorem is about the cached aspect_ratio and the cached Heron area of each slot; that these agree with circumradius / shortest edge '
@@ -67,7 +68,9 @@ THEOREMS = {
          # the ear test of fix 4bb2ed8: the orientation of the ears is proved
          'C01_def_ear_ok', 'C01_ears_checked', 'C01_clip_run_checked', 'C01_ears_convex', 'C01_ear_blocked_false',
          'C01_tri_test_point_outside', 'C01_def_frame_normal', 'C01_frame_normal_eq', 'C01_ear_convex_orient', 'C01_ears_positive',
-         'C01_tiling_count_proved', 'C01_tile_exactly_proved', 'C01_area_sum_proved', 'C01_area_positive_proved', 'C01_sanitize_can_change'],
+         'C01_tiling_count_proved', 'C01_tile_exactly_proved', 'C01_area_sum_proved', 'C01_area_positive_proved', 'C01_sanitize_can_change',
+         # in terms of the polygon (outer outline and holes): C01_tiling composed with C12_region
+         'C01_polygon_def', 'C01_polygon_count', 'C01_polygon_tile_exactly', 'C01_polygon_area_sum', 'C01_polygon_area_parea'],
  'C08': ['C08_initial_invariants', 'C08_wf_history', 'C08_counter_push', 'C08_counter_invalidate_live', 'C08_counter_mark_as_neighbours',
          'C08_counter_split_triangle', 'C08_counter_flip_diagonal', 'C08_counter_restore_delaunay', 'C08_mark_reciprocal',
          'C08_split_edge_half_update_refuted', 'C08_split_edge_w4_now_atomic',
@@ -91,7 +94,10 @@ THEOREMS = {
          'C08_flip_struct', 'C08_geo_gives_flip_shared', 'C08_geo_gives_split_edge_hypothesis',
          'C08_region_flip_diagonal_geo', 'C08_region_restore_delaunay', 'C08_region_split_edge_geo_area',
          'C08_region_split_edge_geo_cover', 'C08_region_history_area', 'C08_region_history_cover',
-         'C08_orientation_restore_delaunay', 'C08_orientation_history'],
+         'C08_orientation_restore_delaunay', 'C08_orientation_history',
+         # Properties/C08_refine.v: refine / mesh_polygon through the trace of elementary steps
+         'C08_refine_trace_erasure', 'C08_add_point_err_unchanged_struct', 'C08_refine_region_area', 'C08_refine_region_cover',
+         'C08_refine_orientation', 'C08_refine_geo', 'C08_mesh_polygon_region'],
  'C09': ['C09_from_polygon_bounded', 'C09_restore_delaunay_bounded', 'C09_edge_add_no_panic', 'C09_panic_sites_flip_diagonal',
          'C09_panic_sites_split_edge', 'C09_panic_sites_split_triangle', 'C09_panic_sites_restore_delaunay', 'C09_panic_sites_add_point',
          'C09_panic_sites_refine', 'C09_wf_push', 'C09_wf_invalidate', 'C09_wf_mark_as_neighbours', 'C09_wf_flip_diagonal',
@@ -117,7 +123,7 @@ def streams(prop, tier):
     if prop == 'C08':
         if q: return [Stream('C08hist', 220, extra=['2']), Stream('C08rand', 16, extra=['90'])]
         if tier == 'search': return [Stream('C08hist', 1500, extra=['2']), Stream('C08rand', 100, extra=['150'])]
-        return [Stream('C08hist', 4000, extra=['3']), Stream('C08rand', 120, extra=['300']), Stream('C08rand', 60, release=True, extra=['300'])]
+        return [Stream('C08hist', 1800, extra=['3']), Stream('C08rand', 70, extra=['250']), Stream('C08rand', 40, release=True, extra=['250'])]
     if prop == 'C09':
         if q: return [Stream('C09mesh', 132), Stream('C09mesh', 64, release=True), Stream('C09refine', 40, extra=['120', '40', '2.0']), Stream('C09refine', 24, release=True, extra=['120', '40', '2.0'])]
         if tier == 'search': return [Stream('C09mesh', 400), Stream('C09refine', 150, extra=['0', '2000', '3.0'])]
